@@ -424,6 +424,7 @@ type SpecFun struct {
 	Body    Expr // nil => uninterpreted
 	Text    string
 	Assumed bool // lemma taken as an axiom (listed in the evidence)
+	Props   []string // lemma [C02,C08] name(...): a composition lemma proved for these properties even when no unit uses it
 }
 
 type Axiom struct {
@@ -549,7 +550,14 @@ func ParseContracts(path, pkgName, src string) (*ContractFile, error) {
 			sf.Assumed = true
 			cf.Lemmas = append(cf.Lemmas, sf)
 		case "lemma":
-			// lemma name(params): body   -- instantiated explicitly with "use"; proved from the axioms as obligation lemma:name
+			// lemma [props] name(params): body   -- instantiated explicitly with "use"; proved from the axioms as obligation lemma:name
+			var lprops []string
+			if strings.HasPrefix(rest, "[") {
+				if end := strings.Index(rest, "]"); end > 0 {
+					lprops = strings.Split(strings.ReplaceAll(rest[1:end], " ", ""), ",")
+					rest = strings.TrimSpace(rest[end+1:])
+				}
+			}
 			i := strings.Index(rest, "):")
 			if i < 0 {
 				return nil, fmt.Errorf("%s: lemma needs 'name(params): expr'", where)
@@ -558,6 +566,7 @@ func ParseContracts(path, pkgName, src string) (*ContractFile, error) {
 			if err != nil {
 				return nil, fmt.Errorf("%s: %v", where, err)
 			}
+			sf.Props = lprops
 			cf.Lemmas = append(cf.Lemmas, sf)
 		case "axiom":
 			i := strings.Index(rest, ":")
